@@ -46,6 +46,7 @@ type entry struct {
 	w        int // writer index
 	returned bool
 	retStep  int
+	callStep int
 }
 
 type S struct {
@@ -61,6 +62,10 @@ type S struct {
 	qAtFlush  int
 	panicMode bool
 	exitSeen  bool
+	// writer switch: logger swLogger gets writer swTo (index into writers) between steps swFrom and swDone
+	swLogger       int
+	swTo           int
+	swFrom, swDone int
 }
 
 func (s *S) Prepare(c *scen.Ctx) {
@@ -101,6 +106,19 @@ func (s *S) Run(c *scen.Ctx) {
 	c.Describe("queue_cap", qcap)
 	c.Describe("writers", nw)
 	c.Describe("panic_exit", s.panicMode)
+	// a logger is given another writer while entries may still be queued for the old one: an
+	// entry belongs to the writer its logger had when it was logged
+	s.swLogger, s.swFrom, s.swDone = -1, -1, -1
+	switchAfter := -1
+	if !s.panicMode && simrt.Draw(4, "c20.switch") == 3 {
+		s.swLogger = simrt.Draw(nw, "c20.switchwhich")
+		nwr := &writer{name: "switched", prefix: s.writers[s.swLogger].prefix}
+		s.writers = append(s.writers, nwr)
+		s.swTo = len(s.writers) - 1
+		switchAfter = simrt.Draw(total+1, "c20.switchafter")
+		c.Count("fault.writer_replaced_with_backlog", 1)
+	}
+	var returnedCalls int
 	tick := make(chan struct{}, total+1)
 	var wg sync.WaitGroup
 	for g := 0; g < ng; g++ {
@@ -114,6 +132,7 @@ func (s *S) Run(c *scen.Ctx) {
 				e := &entry{id: fmt.Sprintf("<<g%d-%d>>", g, k), g: g, k: k, w: wi}
 				s.mu.Lock()
 				s.entries = append(s.entries, e)
+				e.callStep = simrt.Step()
 				s.mu.Unlock()
 				switch kind {
 				case 0:
@@ -128,7 +147,18 @@ func (s *S) Run(c *scen.Ctx) {
 				s.mu.Lock()
 				e.returned = true
 				e.retStep = simrt.Step()
+				returnedCalls++
+				doSwitch := returnedCalls == switchAfter
 				s.mu.Unlock()
+				if doSwitch {
+					s.mu.Lock()
+					s.swFrom = simrt.Step()
+					s.mu.Unlock()
+					loggers[s.swLogger].SetWriter(s.writers[s.swTo])
+					s.mu.Lock()
+					s.swDone = simrt.Step()
+					s.mu.Unlock()
+				}
 				tick <- struct{}{}
 			}
 		})
@@ -157,6 +187,16 @@ func (s *S) Run(c *scen.Ctx) {
 	t0 := time.Now()
 	if s.panicMode {
 		c.Count("probe.panic_exit_path", 1)
+		if simrt.Draw(2, "c20.twopanics") == 1 {
+			// the same bug hit by two goroutines: the second panic arrives while the first is being handled
+			c.Count("fault.second_panic_during_exit", 1)
+			d := time.Duration(simrt.Draw(4, "c20.secondpanic")) * time.Millisecond
+			simrt.Go(func() {
+				defer tars.CheckPanic()
+				simrt.Sleep(d)
+				panic("verif: second deliberate panic")
+			})
+		}
 		func() {
 			defer tars.CheckPanic() // dumps, flushes, exits (simrt.Exit -> Check)
 			panic("verif: deliberate panic after logging")
@@ -235,6 +275,28 @@ func (s *S) Check(c *scen.Ctx, res *simrt.Result) {
 				c.Fail("C20", "order", "writer", "writer %d got entry %s after entry %d of the same goroutine", wi, ms[0], prev)
 			}
 			lastK[g] = k
+		}
+	}
+	if s.swLogger >= 0 && s.swFrom >= 0 {
+		where := map[string]int{}
+		for wi, w := range s.writers {
+			for _, r := range w.got {
+				for _, m := range tokRe.FindAllString(r.data, -1) {
+					where[m] = wi
+				}
+			}
+		}
+		for _, e := range s.entries {
+			wi, ok := where[e.id]
+			if !ok || e.w != s.swLogger {
+				continue
+			}
+			if e.returned && e.retStep < s.swFrom && wi != e.w {
+				c.Fail("C20", "wrong-writer", "SetWriter", "entry %s was logged (call returned at step %d) before its logger was given another writer (step %d) and was handed to the new writer instead of its own", e.id, e.retStep, s.swFrom)
+			}
+			if s.swDone >= 0 && e.callStep > s.swDone && wi != s.swTo {
+				c.Fail("C20", "wrong-writer", "SetWriter", "entry %s was logged (call began at step %d) after its logger had been given another writer (step %d) and was handed to the old writer", e.id, e.callStep, s.swDone)
+			}
 		}
 	}
 	var lost []string
